@@ -27,7 +27,7 @@ PARTIAL = ["extra_validation (nonlinsolve) is not exercised"]
 
 KINDS_UI = ["K1", "K2", "K3", "K4", "K5", "K6"]
 KINDS_CAL = ["K7", "K8", "K9"]
-KINDS_EKF = ["K10", "K10b", "K11a", "K11b", "K11c", "K12", "K13", "K14", "K15", "K16", "K17", "K18"]
+KINDS_EKF = ["K10", "K10b", "K11a", "K11b", "K11c", "K12", "K13", "K13b", "K14", "K15", "K16", "K17", "K18"]
 
 
 class Spec:
@@ -135,6 +135,10 @@ def inject(rng, spec, kind, pos=None):
             key = pick(sorted(s.sensors)); r = pick(sorted(s.sensors[key]))
             extra = Symbol(pick(s.control)) if kind == "K13" else Symbol(fresh(rng, s))
             s.sensors[key][r] = s.sensors[key][r] + extra
+        elif kind == "K13b":
+            # TWO symbols from outside state and calibration in one reading (a control and an undeclared symbol)
+            key = pick(sorted(s.sensors)); r = pick(sorted(s.sensors[key]))
+            s.sensors[key][r] = s.sensors[key][r] + Symbol(pick(s.control)) + Symbol(fresh(rng, s))
         elif kind == "K15":
             del s.sensor_noise[pick(sorted(s.sensor_noise))]
         elif kind == "K16":
@@ -153,7 +157,7 @@ def inject(rng, spec, kind, pos=None):
 def positions(spec, kind):
     n = {"K1": len(spec.state), "K2": len(spec.state), "K3": len(spec.control), "K4": len(spec.update), "K6": len(spec.update),
          "K7": len(spec.calmap), "K9": len(spec.calmap), "K10": len(spec.noise), "K11a": len(spec.state), "K11c": len(spec.noise),
-         "K12": len(spec.noise), "K10b": len(spec.noise), "K13": len(spec.sensors), "K14": len(spec.sensors), "K15": len(spec.sensor_noise),
+         "K12": len(spec.noise), "K10b": len(spec.noise), "K13": len(spec.sensors), "K13b": len(spec.sensors), "K14": len(spec.sensors), "K15": len(spec.sensor_noise),
          "K17": len(spec.sensor_noise), "K18": len(spec.sensor_noise)}.get(kind, 1)
     return range(max(n, 0))
 
